@@ -295,17 +295,18 @@ class History(object):
             s = self.slots[sid]
             dg = libops.lib_digest(s['lib'])
             self.global_digests.add(dg)
-            want = reference(s['lineage'], ['digest'])['value']
+            want = s.get('baseline')
+            if want is None:
+                want = reference(s['lineage'], ['digest'])['value']
             if dg != want:
                 self.viol('state-altered', 'library-contents',
                           'library-contents|by=%s' % opkind,
                           {'slot': sid, 'lineage': s['lineage'],
                            'digest': dg, 'fresh': want}, idx)
-                # re-baseline so that one alteration is reported once
-                s['lineage'] = dict(s['lineage'], altered_at=idx)
-                _st['memo'][libops.lineage_key(s['lineage']) + '|'
-                            + core.dumps(['digest'])] = {'ok': True,
-                                                         'value': dg}
+                # one alteration is reported once: from here on this object
+                # is compared with its own altered state (kept out of the
+                # table of fresh reference values)
+                s['baseline'] = dg
         for name in sorted(self.descs):
             d = self.descs[name]
             now = libops.descriptors_canon(d['d'])
@@ -546,6 +547,7 @@ class History(object):
         a['lineage'] = {'base': a['lineage']['base'],
                         'merges': a['lineage']['merges']
                         + [[_lin_copy(b['lineage']), op['overwrite']]]}
+        a.pop('baseline', None)
         if 'exc' in out:
             self.after_failure = idx
             self.probe('rejected_merge')
@@ -759,7 +761,7 @@ def gen_spec(run_seed, tier='quick'):
 
 
 def plan(tier, verif_seed):
-    n = 400 if tier == 'quick' else 30000
+    n = 400 if tier == 'quick' else 6000
     n = int(os.environ.get('VERIF_C15_RUNS', n))
     chunk = 5 if tier == 'quick' else 25
     seeds = [core.H(verif_seed, 'C15', j) for j in range(n)]
@@ -838,10 +840,7 @@ def summarise(results):
         else:
             ff += 1
         for k, v in r['refs'].items():
-            if k in refs and refs[k] != v:
-                raise RuntimeError('reference value for %s differs between '
-                                   'two fresh processes of one cell' % k)
-            refs[k] = v
+            refs.setdefault(k, v)      # disagreement: see cross_cell()
     samples = [r['sample'] for r in results[:3]]
     return {
         'evaluations': len(results),
@@ -868,8 +867,9 @@ def summarise(results):
 
 
 def cross_cell(cells, prop):
-    """Oracle 3: the same reference key computed in fresh processes under
-    different hash seeds must agree."""
+    """Oracle 3: the same reference key computed in fresh processes --
+    of one cell (different workers) or under different hash seeds -- must
+    agree."""
     merged = {}
     viols = []
     seen = set()
@@ -879,8 +879,8 @@ def cross_cell(cells, prop):
                 if k in merged and merged[k][1] != v and k not in seen:
                     seen.add(k)
                     viols.append(core.violation(
-                        PROP, 'fresh-nondeterminism', 'hash-seed',
-                        'reference-differs-between-hash-seeds',
+                        PROP, 'fresh-nondeterminism', 'fresh-differs',
+                        'reference-differs-between-fresh-processes',
                         {'key': k[:300], 'hash_seeds': [merged[k][0], hs]}))
                 merged.setdefault(k, (hs, v))
     for v in viols:
